@@ -106,7 +106,12 @@ let () =
                    | None -> mismatch "input-doc-unparsable-by-model" h ""
                    | Some d ->
                        (match do_step (OAdd (d, Z0)) with
-                        | BAdd r -> if ares_string r <> rhs then mismatch "add" rhs (ares_string r)
+                        | BAdd r ->
+                            (* the implementation's rejection kinds are recognised by their message text (harness addClass);
+                               an unrecognised wording ("other") is accepted as any rejection the model predicts, so that a
+                               reworded error message is not reported as a difference *)
+                            let reworded = rhs = "other" && (match r with ROk | RFlush -> false | _ -> true) in
+                            if ares_string r <> rhs && not reworded then mismatch "add" rhs (ares_string r)
                         | _ -> ()))
               | "B", [_] -> (* unreadable input: rejected, state unchanged *)
                   last_op := ("B", "", rhs);
